@@ -375,6 +375,42 @@ impl Scenario for Batch {
                 v.push(("batch:driver".into(), format!("{:?}", m)));
             }
         }
+        // "takes effect before the close": what the I/O thread accepted from a channel before it
+        // acted on the server's Connection.Close (before it took the client's close request, if
+        // the server never closed the connection) is on the wire, in whole frames, once the
+        // client's last frame (CloseOk / Close) is
+        {
+            use amiquip::verif::MsgKind;
+            use amq_protocol::frame::AMQPFrame;
+            use amq_protocol::protocol::{connection as pconnection, AMQPClass};
+            use vh::sim::world::IoEvent;
+            let (envs, rest) = wire_frames(o);
+            let last_out = envs.iter().any(|e| e.chan == 0 && (is_method(e, 10, 51) || is_method(e, 10, 50)));
+            if last_out && rest != 0 {
+                v.push(("batch:wire-not-whole-frames".into(), format!("{} trailing bytes on the wire; events {:?}", rest, events)));
+            }
+            let cut = o
+                .io_events
+                .iter()
+                .position(|e| matches!(e, IoEvent::Frame(AMQPFrame::Method(0, AMQPClass::Connection(pconnection::AMQPMethod::Close(_)))) | IoEvent::Recv { msg: MsgKind::ConnectionClose { .. }, .. }))
+                .unwrap_or(o.io_events.len());
+            if last_out && rest == 0 && !o.io_panicked {
+                for chan in [1u16, 2, 3] {
+                    let accepted: usize = o.io_events[..cut]
+                        .iter()
+                        .map(|e| match e {
+                            IoEvent::Recv { channel_id, msg: MsgKind::Send { len }, .. } if *channel_id == chan => *len,
+                            _ => 0,
+                        })
+                        .sum();
+                    // (the I/O thread's own CloseOk for a channel the server closed comes on top)
+                    let written: usize = envs.iter().filter(|e| e.chan == chan && !is_method(e, 20, 41)).map(|e| e.wire_len()).sum();
+                    if written < accepted {
+                        v.push(("batch:accepted-output-not-written".into(), format!("channel {}: the I/O thread had accepted {} bytes of requests before the connection's close point but only {} reached the wire; events {:?}", chan, accepted, written, events)));
+                    }
+                }
+            }
+        }
         // differential: same events, same order, one per batch
         if p["mode"] == "one" && v.is_empty() && o.panics.is_empty() && !o.io_panicked && o.deadlock.is_none() {
             // "resolves as some serial order": the same events handled one per batch, in the
